@@ -571,6 +571,26 @@ def real_find(q):
         return _exc(e)
 
 
+def real_find_explicit(q, submission_src, code):
+    """The finders asked about explicitly given `code` while the submission is `submission_src`.
+    find_asts takes student_code=; find_operation / find_function_calls take root=parse_program(code)."""
+    kind, arg = q
+    load(submission_src)
+    try:
+        st.parse_program()          # the submission was looked at first (so a 'current tree' exists)
+        if kind == "ast":
+            found = find_asts(arg, student_code=code)
+        elif kind == "op":
+            found = find_operation(arg, root=st.parse_program(code))
+        elif kind == "call":
+            found = find_function_calls(arg, root=st.parse_program(code))
+        else:
+            return None
+        return [node_key(c.astNode) for c in found]
+    except Exception as e:  # noqa
+        return _exc(e)
+
+
 ALIASES = {("op", "ensure"): st.ensure_operator, ("op", "prevent"): st.prevent_operator}
 
 
